@@ -370,7 +370,53 @@ func (w *wbuild) Drive(s *simrt.Sched, out *RunResult) {
 		if w.fs != nil && w.fs.damage {
 			kinds = append(kinds, "damage")
 		}
+		var binTargets []string
+		if w.g.Features["bin"] && mB == nil {
+			for _, l := range w.U.Labels() {
+				sp := w.U.Specs[l]
+				for _, o := range sp.Outs {
+					if o.Kind == "bin" && !sp.IsTest() && platformOK(sp, base.Platform, false) {
+						binTargets = append(binTargets, l)
+					}
+				}
+			}
+			if len(binTargets) > 0 {
+				kinds = append(kinds, "run")
+			}
+		}
 		switch kinds[c.Choose(len(kinds), "op")] {
+		case "run":
+			// `grog run //label`: builds (or restores) the target, then executes its binary output
+			l := binTargets[c.Choose(len(binTargets), "run-target")]
+			req := BuildReq{Kind: "run", Patterns: []string{l}}
+			w.mu.Lock()
+			w.ranBin = nil
+			w.mu.Unlock()
+			doBuild(req, base, "grog run")
+			res := lastRes
+			if res != nil && len(s.Violations) == 0 && !(w.fs != nil && (w.fs.fired > 0 || w.fs.crashed || w.fs.sigStep != 0)) {
+				sp := w.U.Specs[l]
+				binPath := ""
+				for _, o := range sp.Outs {
+					if o.Kind == "bin" {
+						binPath = filepath.Join(m.WS, sp.Pkg, o.Path)
+					}
+				}
+				w.mu.Lock()
+				ran := false
+				for _, p := range w.ranBin {
+					if p == binPath {
+						ran = true
+					}
+				}
+				w.mu.Unlock()
+				if res.ExitCode == 0 && !ran {
+					s.Report(simrt.Violation{Prop: "C06", Class: "binary-not-run", Signature: "grog-run", Detail: "grog run " + l + " exited 0 but the binary output was not executed\n" + tailStr(res.Log, 8)})
+				}
+				if res.ExitCode != 0 && strings.Contains(res.Log, "permission denied") {
+					s.Report(simrt.Violation{Prop: "C06", Class: "restored-binary-not-runnable", Signature: "grog-run", Detail: "grog run " + l + ": the binary output could not be executed (permission denied)\n" + tailStr(res.Log, 8)})
+				}
+			}
 		case "damage":
 			note := w.damageCache(m)
 			for k := range cm.strict {
@@ -645,6 +691,9 @@ func (w *wbuild) checkBuild(res *InvResult, req BuildReq, opts InvOpts, cm *cach
 		return
 	}
 	ev := NewEval(u, opts.Platform)
+	if req.Kind == "run" {
+		req.Kind = "build"
+	}
 	sel := u.Select(req, opts.Platform)
 	faulted, crashed, signalled := false, false, false
 	if w.fs != nil {
